@@ -22,9 +22,87 @@
 static long sink_cap;
 static unsigned char *sink_buf;
 static long sink_len, sink_alloc;
+
+/* EINTR injection (op `eintr N`): the next N read()/write() calls made by cbuf.c fail with EINTR
+ * before the call is really made -- cbuf_get_fd / cbuf_put_fd must retry, so the answers of the
+ * following operation must be exactly those without the interruptions */
+static int eintr_left;
+
+static ssize_t h_read(int fd, void *buf, size_t n)
+{
+    if (eintr_left > 0) { eintr_left--; errno = EINTR; return -1; }
+    return read(fd, buf, n);
+}
+
+/* LOCKCHK: the locking discipline of cbuf.c, checked on every public call the harness makes:
+ * every mutex a call takes is released by the same call (nothing held at return), no mutex is
+ * taken twice by one call (the mutex is not recursive: a public function calling another public
+ * function of the same buffer would deadlock; here it is reported instead), and a call that
+ * changed or read the buffer did take its mutex.  This is the discipline PdshVerif/Cbuf/Lin.lean
+ * models (`acquire`, critical section, `release`). */
+#define LK_MAX 4
+static pthread_mutex_t *lk_held[LK_MAX];
+static int lk_nheld, lk_locks, lk_unlocks, lk_bad;
+static char lk_what[96];
+static void lk_fail(const char *w)
+{
+    if (!lk_bad) snprintf(lk_what, sizeof lk_what, "%s", w);
+    lk_bad = 1;
+}
+static int lk_find(pthread_mutex_t *m)
+{
+    for (int i = 0; i < lk_nheld; i++) if (lk_held[i] == m) return i;
+    return -1;
+}
+static int h_mutex_lock(pthread_mutex_t *m)
+{
+    int e;
+    if (lk_find(m) >= 0) { lk_fail("relock-of-held-mutex"); return EDEADLK; }
+    e = pthread_mutex_lock(m);
+    if (e == 0) {
+        lk_locks++;
+        if (lk_nheld < LK_MAX) lk_held[lk_nheld++] = m; else lk_fail("too-many-held");
+    }
+    return e;
+}
+static int h_mutex_trylock(pthread_mutex_t *m)
+{
+    /* cbuf_mutex_is_locked(): EBUSY while we hold it (the expected answer inside a call) */
+    if (lk_find(m) >= 0) return EBUSY;
+    lk_fail("buffer-touched-without-mutex");   /* cbuf_is_valid / helper entered unlocked */
+    return pthread_mutex_trylock(m) == 0 ? (pthread_mutex_unlock(m), 0) : EBUSY;
+}
+static int h_mutex_unlock(pthread_mutex_t *m)
+{
+    int i = lk_find(m);
+    if (i < 0) { lk_fail("unlock-of-mutex-not-held"); return EPERM; }
+    lk_held[i] = lk_held[--lk_nheld];
+    lk_unlocks++;
+    return pthread_mutex_unlock(m);
+}
+/* before / after every public call; `max` = number of buffers the call may lock */
+static long lk_calls, lk_calls_locking;
+static void lk_begin(void) { lk_locks = lk_unlocks = 0; lk_calls++; }
+static void lk_end(int max)
+{
+    if (lk_nheld != 0) {
+        /* release for real what the call left locked, or the next call would deadlock on it
+         * (the mutex is not recursive): the violation is reported, the run goes on */
+        lk_fail("mutex-held-at-return");
+        while (lk_nheld > 0) pthread_mutex_unlock(lk_held[--lk_nheld]);
+    }
+    if (lk_locks != lk_unlocks) lk_fail("locks!=unlocks");
+    if (lk_locks > max) lk_fail("locked-more-than-once");
+    if (lk_locks) lk_calls_locking++;
+}
+#define CALL1(e) (lk_begin(), lk_tmp = (e), lk_end(1), lk_tmp)
+#define CALL2(e) (lk_begin(), lk_tmp = (e), lk_end(2), lk_tmp)
+static int lk_tmp;
+
 static ssize_t h_write(int fd, const void *buf, size_t n)
 {
     size_t k;
+    if (eintr_left > 0 && fd == SINK_FD) { eintr_left--; errno = EINTR; return -1; }
     if (fd != SINK_FD)
         return write(fd, buf, n);
     if (sink_cap <= 0) { errno = EAGAIN; return -1; }
@@ -39,8 +117,16 @@ static ssize_t h_write(int fd, const void *buf, size_t n)
     return (ssize_t) k;
 }
 #define write h_write
+#define read h_read
+#define pthread_mutex_lock h_mutex_lock
+#define pthread_mutex_unlock h_mutex_unlock
+#define pthread_mutex_trylock h_mutex_trylock
 #include "src/pdsh/cbuf.c"
 #undef write
+#undef read
+#undef pthread_mutex_lock
+#undef pthread_mutex_unlock
+#undef pthread_mutex_trylock
 
 void lsd_fatal_error(char *file, int line, char *mesg)
 {
@@ -78,13 +164,36 @@ static void puthex(const unsigned char *b, int n)
     for (int i = 0; i < n; i++) printf("%02x", b[i]);
 }
 
-static void stat_tail(cbuf_t cb)
+/* a violation of the locking discipline since the last answer: marker at the end of the line */
+static void lk_mark(void)
 {
-    printf(" | %d %d %d %d\n", cbuf_size(cb), cbuf_used(cb), cbuf_lines_used(cb), cbuf_reused(cb));
+    if (lk_bad) printf(" !LOCK:%s!", lk_what);
+    lk_bad = 0;
 }
 static void stat_mid(cbuf_t cb)
 {
-    printf(" | %d %d %d %d", cbuf_size(cb), cbuf_used(cb), cbuf_lines_used(cb), cbuf_reused(cb));
+    int a = CALL1(cbuf_size(cb)), b = CALL1(cbuf_used(cb)), c = CALL1(cbuf_lines_used(cb)),
+        d = CALL1(cbuf_reused(cb));
+    /* the two getters that have no column of their own must agree with the others */
+    int e = CALL1(cbuf_free(cb)), f = CALL1(cbuf_is_empty(cb)), v = -9;
+    int g = CALL1(cbuf_opt_get(cb, CBUF_OPT_OVERWRITE, &v));
+    int lr = CALL1(cbuf_lines_reused(cb));
+    printf(" | %d %d %d %d %d", a, b, c, d, lr);
+    if (e != a - b) printf(" !free=%d!", e);
+    if (f != (b == 0)) printf(" !is_empty=%d!", f);
+    if (g != 0 || (v != CBUF_NO_DROP && v != CBUF_WRAP_ONCE && v != CBUF_WRAP_MANY)) printf(" !opt_get=%d,%d!", g, v);
+}
+static void stat_tail(cbuf_t cb)
+{
+    stat_mid(cb);
+    lk_mark();
+    printf("\n");
+}
+static void h_destroy(cbuf_t cb)
+{
+    lk_begin();
+    cbuf_destroy(cb);
+    lk_end(1);
 }
 
 int main(int argc, char **argv)
@@ -99,7 +208,7 @@ int main(int argc, char **argv)
         cbuf_t t = cbuf_create(8, 8);
         printf("%d\n", t->alloc - t->size);
         fflush(stdout);
-        cbuf_destroy(t);
+        h_destroy(t);
         return 0;
     }
     while (fgets(line, sizeof(line), stdin)) {
@@ -110,10 +219,16 @@ int main(int argc, char **argv)
         if (nf < 1) { printf("bad-op\n"); continue; }
         if (!strcmp(op, "reset")) {
             bufs[second] = cb;
-            if (bufs[0]) cbuf_destroy(bufs[0]);
-            if (bufs[1]) cbuf_destroy(bufs[1]);
+            if (bufs[0]) h_destroy(bufs[0]);
+            if (bufs[1]) h_destroy(bufs[1]);
             bufs[0] = bufs[1] = cb = NULL;
             second = 0;
+            eintr_left = 0;
+            printf("ok"); lk_mark(); printf("\n");
+            continue;
+        }
+        if (!strcmp(op, "eintr")) {
+            eintr_left = atoi(a1);
             printf("ok\n");
             continue;
         }
@@ -125,10 +240,12 @@ int main(int argc, char **argv)
             continue;
         }
         if (!strcmp(op, "create")) {
-            if (cb) cbuf_destroy(cb);
+            if (cb) h_destroy(cb);
+            lk_begin();
             cb = cbuf_create(atoi(a1), atoi(a2));
+            lk_end(1);
             bufs[second] = cb;
-            if (!cb) { printf("null\n"); continue; }
+            if (!cb) { printf("null"); lk_mark(); printf("\n"); continue; }
             printf("ok"); stat_tail(cb);
             continue;
         }
@@ -137,24 +254,24 @@ int main(int argc, char **argv)
             int nd = -7, n;
             if (nf < 2) { printf("bad-op\n"); continue; }
             if (!cb || !dst) { printf("no-cbuf\n"); continue; }
-            n = (op[0] == 'c') ? cbuf_copy(cb, dst, atoi(a1), &nd) : cbuf_move(cb, dst, atoi(a1), &nd);
+            n = (op[0] == 'c') ? CALL2(cbuf_copy(cb, dst, atoi(a1), &nd)) : CALL2(cbuf_move(cb, dst, atoi(a1), &nd));
             printf("%d %d", n, nd); stat_mid(cb); stat_tail(dst);
             continue;
         }
         if (!cb) { printf("no-cbuf\n"); continue; }
         if (!strcmp(op, "opt")) {
-            int rc = cbuf_opt_set(cb, CBUF_OPT_OVERWRITE, atoi(a1));
+            int rc = CALL1(cbuf_opt_set(cb, CBUF_OPT_OVERWRITE, atoi(a1)));
             printf("%d", rc); stat_tail(cb);
         } else if (!strcmp(op, "write")) {
             int len, nd = -7;
             unsigned char *b = unhex(a1, &len);
-            int n = cbuf_write(cb, b, len, &nd);
+            int n = CALL1(cbuf_write(cb, b, len, &nd));
             printf("%d %d", n, nd); stat_tail(cb);
             free(b);
         } else if (!strcmp(op, "wline")) {
             int len, nd = -7;
             unsigned char *b = unhex(a1, &len);
-            int n = cbuf_write_line(cb, (char *) b, &nd);
+            int n = CALL1(cbuf_write_line(cb, (char *) b, &nd));
             printf("%d %d", n, nd); stat_tail(cb);
             free(b);
         } else if (!strcmp(op, "wfd")) {
@@ -166,7 +283,7 @@ int main(int argc, char **argv)
             fcntl(pfd[1], F_SETPIPE_SZ, 1 << 20);
             if (len > 0 && write(pfd[1], b, len) != len) { perror("short pipe write"); return 2; }
             if (atoi(a3)) { close(pfd[1]); pfd[1] = -1; }
-            n = cbuf_write_from_fd(cb, pfd[0], atoi(a1), &nd);
+            n = CALL1(cbuf_write_from_fd(cb, pfd[0], atoi(a1), &nd));
             printf("%d %d", n, nd); stat_tail(cb);
             close(pfd[0]);
             if (pfd[1] >= 0) close(pfd[1]);
@@ -174,32 +291,32 @@ int main(int argc, char **argv)
         } else if (!strcmp(op, "read") || !strcmp(op, "peek")) {
             int len = atoi(a1);
             unsigned char *b = malloc(len > 0 ? len : 1);
-            int n = (op[0] == 'r') ? cbuf_read(cb, b, len) : cbuf_peek(cb, b, len);
+            int n = (op[0] == 'r') ? CALL1(cbuf_read(cb, b, len)) : CALL1(cbuf_peek(cb, b, len));
             printf("%d ", n); puthex(b, n); stat_tail(cb);
             free(b);
         } else if (!strcmp(op, "replay")) {
             int len = atoi(a1);
             unsigned char *b = malloc(len > 0 ? len : 1);
-            int n = cbuf_replay(cb, b, len);
+            int n = CALL1(cbuf_replay(cb, b, len));
             printf("%d ", n); puthex(b, n); stat_tail(cb);
             free(b);
         } else if (!strcmp(op, "rewind")) {
-            int n = cbuf_rewind(cb, atoi(a1));
+            int n = CALL1(cbuf_rewind(cb, atoi(a1)));
             printf("%d", n); stat_tail(cb);
         } else if ((!strcmp(op, "rfd") && nf >= 3) || !strcmp(op, "pfd") || !strcmp(op, "yfd")) {
             int len = atoi(a1), n;
             if (nf < 3) { printf("bad-op\n"); continue; }
             sink_cap = atol(a2);
             sink_len = 0;
-            n = op[0] == 'r' ? cbuf_read_to_fd(cb, SINK_FD, len)
-              : op[0] == 'p' ? cbuf_peek_to_fd(cb, SINK_FD, len) : cbuf_replay_to_fd(cb, SINK_FD, len);
+            n = op[0] == 'r' ? CALL1(cbuf_read_to_fd(cb, SINK_FD, len))
+              : op[0] == 'p' ? CALL1(cbuf_peek_to_fd(cb, SINK_FD, len)) : CALL1(cbuf_replay_to_fd(cb, SINK_FD, len));
             printf("%d ", n); puthex(sink_buf, (int) sink_len); stat_tail(cb);
         } else if (!strcmp(op, "rfd")) {
             int len = atoi(a1), pfd[2], n;
             unsigned char *b;
             if (pipe(pfd) < 0) { perror("pipe"); return 2; }
             fcntl(pfd[1], F_SETPIPE_SZ, 1 << 20);
-            n = cbuf_read_to_fd(cb, pfd[1], len);
+            n = CALL1(cbuf_read_to_fd(cb, pfd[1], len));
             close(pfd[1]);
             b = malloc(n > 0 ? n : 1);
             if (n > 0 && read(pfd[0], b, n) != n) { perror("short pipe read"); return 2; }
@@ -207,7 +324,7 @@ int main(int argc, char **argv)
             printf("%d ", n); puthex(b, n); stat_tail(cb);
             free(b);
         } else if (!strcmp(op, "drop")) {
-            int n = cbuf_drop(cb, atoi(a1));
+            int n = CALL1(cbuf_drop(cb, atoi(a1)));
             printf("%d", n); stat_tail(cb);
         } else if (!strcmp(op, "rline") || !strcmp(op, "pline")) {
             int len = atoi(a1), lines = atoi(a2);
@@ -215,7 +332,7 @@ int main(int argc, char **argv)
             char *b = malloc(len > 0 ? len : 1);
             int n;
             memset(b, 0x7e, len > 0 ? len : 1);
-            n = (op[0] == 'r') ? cbuf_read_line(cb, b, len, lines) : cbuf_peek_line(cb, b, len, lines);
+            n = (op[0] == 'r') ? CALL1(cbuf_read_line(cb, b, len, lines)) : CALL1(cbuf_peek_line(cb, b, len, lines));
             printf("%d ", n);
             if (n > 0 && len > 0) {
                 /* stored bytes up to the terminating NUL written at index m = MIN(n, len-1) */
@@ -226,17 +343,40 @@ int main(int argc, char **argv)
                 printf("~");
             stat_tail(cb);
             free(b);
+        } else if (!strcmp(op, "yline")) {
+            int len = atoi(a1), lines = atoi(a2), n, m;
+            /* exact-size allocation (ASan sees a byte written at index >= len); the fill byte lets
+             * the terminating NUL be found without knowing whether a newline was supplied: it is
+             * the last byte cbuf_replay_line wrote, everything behind it is still the fill */
+            unsigned char *b = malloc(len > 0 ? len : 1);
+            memset(b, 0xA5, len > 0 ? len : 1);
+            n = CALL1(cbuf_replay_line(cb, (char *) b, len, lines));
+            printf("%d ", n);
+            if (n > 0 && len > 0) {
+                for (m = len - 1; m > 0 && b[m] == 0xA5; m--)
+                    ;
+                if (b[m] != 0) printf("!noNUL!");
+                puthex(b, m);
+            } else
+                printf("~");
+            stat_tail(cb);
+            free(b);
+        } else if (!strcmp(op, "wrline")) {
+            int n = CALL1(cbuf_rewind_line(cb, atoi(a1), atoi(a2)));
+            printf("%d", n); stat_tail(cb);
         } else if (!strcmp(op, "dline")) {
-            int n = cbuf_drop_line(cb, atoi(a1), atoi(a2));
+            int n = CALL1(cbuf_drop_line(cb, atoi(a1), atoi(a2)));
             printf("%d", n); stat_tail(cb);
         } else if (!strcmp(op, "flush")) {
+            lk_begin();
             cbuf_flush(cb);
+            lk_end(1);
             printf("ok"); stat_tail(cb);
         } else
             printf("bad-op\n");
     }
     bufs[second] = cb;
-    if (bufs[0]) cbuf_destroy(bufs[0]);
-    if (bufs[1]) cbuf_destroy(bufs[1]);
+    if (bufs[0]) h_destroy(bufs[0]);
+    if (bufs[1]) h_destroy(bufs[1]);
     return 0;
 }
